@@ -150,7 +150,7 @@ Definition extra_okb (tbl : defaults_table) (p : Proofs12.pass) (m : model) : bo
   | Proofs12.PRmFunc _ | Proofs12.PInline _ _ _ => true
   | Proofs12.PDce sc u _ _ => nobntrainingb m && nofuncopb sc m && olb m && unnameddeadb u m && frame_okb m
   | Proofs12.PLift _ _ _ fresh => constokb m && freshokb m fresh
-  | Proofs12.PCse _ fresh => mainlocalb m && freshbb m fresh
+  | Proofs12.PCse _ fresh _ => mainlocalb m && freshbb m fresh
   | Proofs12.POutFix _ fresh => freshallb m fresh
   | Proofs12.PReorder m' => reorder_modelb m m'
   | Proofs12.PLiftSub _ => subs_nodupb m
@@ -264,7 +264,7 @@ Module Proofs19Examples.
   Example dce_ex0 : extra_okb tbl1 (Proofs12.PDce sc1 [99] [GMain] 8) ex0 = true.  Proof. vm_compute. reflexivity. Qed.
   Example dce_ex1 : extra_okb tbl1 (Proofs12.PDce sc1 [99] [GMain; GSub 1] 8) ex1 = true.  Proof. vm_compute. reflexivity. Qed.
   Example lift_ex1 : extra_okb tbl1 (Proofs12.PLift 8 true 0%Z 100) ex1 = true.  Proof. vm_compute. reflexivity. Qed.
-  Example cse_ex1 : extra_okb tbl1 (Proofs12.PCse 0%Z 100) ex1 = true.  Proof. vm_compute. reflexivity. Qed.
+  Example cse_ex1 : extra_okb tbl1 (Proofs12.PCse 0%Z 100 []) ex1 = true.  Proof. vm_compute. reflexivity. Qed.
   Example outfix_ex1 : extra_okb tbl1 (Proofs12.POutFix [[GMain; GSub 1]] 100) ex1 = true.  Proof. vm_compute. reflexivity. Qed.
   Example reorder_ex1 : extra_okb tbl1 (Proofs12.PReorder ex1) ex1 = true.  Proof. vm_compute. reflexivity. Qed.
   Example liftsub_ex1 : extra_okb tbl1 (Proofs12.PLiftSub [GMain; GSub 1]) ex1 = true.  Proof. vm_compute. reflexivity. Qed.
@@ -273,7 +273,7 @@ Module Proofs19Examples.
   (* conditions that fail *)
   (* fresh counter below an existing identity *)
   Example lift_small_fresh : extra_okb tbl1 (Proofs12.PLift 8 true 0%Z 8) ex1 = false.  Proof. vm_compute. reflexivity. Qed.
-  Example cse_small_fresh : extra_okb tbl1 (Proofs12.PCse 0%Z 20) ex1 = false.  Proof. vm_compute. reflexivity. Qed.
+  Example cse_small_fresh : extra_okb tbl1 (Proofs12.PCse 0%Z 20 []) ex1 = false.  Proof. vm_compute. reflexivity. Qed.
   Example outfix_small_fresh : extra_okb tbl1 (Proofs12.POutFix [] 3) ex0 = false.  Proof. vm_compute. reflexivity. Qed.
   (* an "unnamed" value that is used *)
   Example dce_unnamed_used : extra_okb tbl1 (Proofs12.PDce sc1 [2] [GMain] 8) ex0 = false.  Proof. vm_compute. reflexivity. Qed.
@@ -304,9 +304,9 @@ Module Proofs19Examples.
 
   (* a whole sequence, each condition evaluated on the model produced by the passes before it *)
   Definition seq1 : list Proofs12.pass :=
-    [Proofs12.PReorder ex1; Proofs12.PDefAttr 8; Proofs12.PLift 8 true 0%Z 100; Proofs12.PCse 0%Z 200;
+    [Proofs12.PReorder ex1; Proofs12.PDefAttr 8; Proofs12.PLift 8 true 0%Z 100; Proofs12.PCse 0%Z 200 [];
      Proofs12.PIdent 8; Proofs12.PDce sc1 [99] [GMain; GSub 1] 8; Proofs12.PLiftSub [GMain; GSub 1];
      Proofs12.POutFix [[GMain; GSub 1]] 300; Proofs12.PRmFunc 8; Proofs12.PAddInit; Proofs12.PRmInit].
   Example seq_ex1 : seq_okb [] tbl1 seq1 ex1 = true.  Proof. vm_compute. reflexivity. Qed.
-  Example seq_ex1_bad : seq_okb [] tbl1 (seq1 ++ [Proofs12.PCse 0%Z 2]) ex1 = false.  Proof. vm_compute. reflexivity. Qed.
+  Example seq_ex1_bad : seq_okb [] tbl1 (seq1 ++ [Proofs12.PCse 0%Z 2 []]) ex1 = false.  Proof. vm_compute. reflexivity. Qed.
 End Proofs19Examples.
